@@ -11,11 +11,11 @@ RULE = ("sequential point-cloud and mesh streams with quantized float attributes
         "Edgebreaker standard/valence and sequential at speeds 0..10, point clouds with 1..4 quantized float attributes + integer ones through kd-tree "
         "and sequential; every stream decoded normally and with 2-3 random subsets of the five attribute types skipped: same counts, unique ids, "
         "faces; unskipped attributes byte-identical; a skipped attribute exposed as integers must carry a transform description whose re-application "
-        "reproduces the normal decode bit for bit")
+        "reproduces the normal decode bit for bit; the same on every legacy (bitstream 1.1..2.1) stream of the frozen corpus and a quarter of the current ones")
 NEEDS = ["Model/SeqCodecInst.vo", "Base/DriverSupport.vo"]
 def corr_runs(ctx):
     return [dict(tag="h_seq_skip", harness="seq", driver="seq", args=[ctx.tier, ctx.seed], needs_vo=NEEDS, env={"SEQ_MODE": "skip"}, timeout=1500),
-            dict(tag="h_c10", harness="c10", driver=None, args=[ctx.tier, ctx.seed], timeout=3000)]
+            dict(tag="h_c10", harness="c10", driver=None, args=[ctx.tier, ctx.seed], timeout=3000, env={"C10_CORPUS": __import__("os").path.join(V.ROOT, "corpus", "C05")})]
 def extra(ctx, lib):
     import os
     for l in open(os.path.join(V.BUILD, "C10_h_c10.cases")):
